@@ -46,7 +46,13 @@ _SHADOW = (
 )
 PROGRAMS = [
     "x = 1\nif x:\n    print(x)\nelse:\n    print(0)\nprint(2)\n",
-    "def f(alpha, beta, gamma, delta):\n    def g():\n        return alpha + beta + gamma + delta\n    return g()\nprint(f(1, 2, 3, 4))\n",
+    # the same identifiers in different roles, first as variables that need a special load (nonlocal cell, free name of a
+    # class body, shadowed global) read inside comprehensions/lambdas, then as comprehension targets: any name-keyed state
+    # that survives a conversion changes the text of the next conversion of this very program
+    "gamma = 'g'\ndef f(alpha, beta, gamma, delta):\n    def g():\n        nonlocal alpha\n        alpha += 0\n        class C:\n            r = [beta * k for k in range(2)]\n"
+    "        def h():\n            global gamma\n            return [gamma for k in range(1)], (lambda: gamma)()\n"
+    "        return alpha + beta + delta + sum([alpha * k for k in range(2)]) + sum(C.r), h()\n    return g()\nprint(f(1, 2, 3, 4))\n"
+    "print([alpha for alpha in range(2)], {beta: gamma for beta, gamma in [(1, 2)]}, gamma)\n",
     "i = 0\nwhile i < 5:\n    k = 0\n    while k < 3:\n        k += 1\n        if k == 2:\n            break\n        k += 0\n    i += 1\n    if i == 3:\n        break\n    i += 0\nfor j in range(3):\n    for m in range(2):\n        if m:\n            break\n        m += 0\n    if j:\n        break\n    j += 0\nimport os\nprint(i, j, k, m)\n",
     "a, (b, c) = 1, (2, 3)\n(d, e), g = (4, 5), 6\nclass K:\n    v = a\n    __p = 7\n    def __hid(self):\n        return self.__p\n    class __In:\n        z = 1\n    def m(self):\n        return self.v, self.__hid(), self.__In.z\ntype = 0\nprint(K().m(), b, c, d, e, g, f'{a!r:>{b}}')\n" + _SHADOW,
 ]
